@@ -96,8 +96,10 @@ def generate(cls, rng):
     threads = [gen_client_ops(rng, rng.randrange(1, DP.pick(9, 16)),
                               DP.pick(2, 3), finite)
                for _ in range(nthreads)]
-    kind = rng.choice(["random", "random", "pb", "pb", "pct", "crit"])
-    if kind == "crit":
+    kind = rng.choice(["random", "random", "pb", "pbx", "pbx", "pct", "crit"])
+    if kind == "pbx":
+        strat = dict(kind="pbx", k=rng.choice([1, 1, 2, 3]))
+    elif kind == "crit":
         strat = dict(kind="crit", k=rng.choice([1, 2, 3]),
                      q=rng.choice([0.05, 0.15, 0.4]),
                      p=rng.choice([0.0, 0.02, 0.1]))
